@@ -177,7 +177,7 @@ func TestC11(t *testing.T) {
 			run.Excluded(exclStructWidth) // the case's struct types were built with one shared label set
 		}
 		if stats.Exclusion(exclTaggedTag) && strings.Contains(c.Text, "TaggedUnion") {
-			run.Excluded(exclTaggedTag) // the case has one tagged-union type and no other struct type
+			run.Excluded(exclTaggedTag) // the case has tagged unions and therefore no other struct type
 		}
 		v := check(run, rt, c)
 		labels := append([]string{}, v.labels...)
